@@ -281,6 +281,11 @@ theorem negotiation_meets_property (N : Neg σ κ) (hs : TotalPre N.sle) (hq : T
     have hyq : N.qle y.2 q0 = true := d2.2 d1.1
     exact hq.trans _ _ _ hyq (hall o ho ci0 q0 hbo).1
 
+example : TotalPre acceptNeg.sle ∧ TotalPre acceptNeg.qle ∧
+    bestMatch acceptNeg (mk acceptNeg [("gzip".toList, ⟨5, 1⟩), ("*".toList, ⟨1, 1⟩)])
+      ["br".toList, "gzip".toList] = some "gzip".toList :=
+  ⟨specLe_totalPre, qle_totalPre, by decide⟩
+
 /-- ... and conversely nothing is chosen only when no offer has positive quality. -/
 theorem negotiation_none_meets_property (N : Neg σ κ) (hs : TotalPre N.sle) (hq : TotalPre N.qle)
     (values : List (Str × κ)) (offers : List Str)
@@ -380,6 +385,47 @@ theorem invalid_q_ignored_full_false : ¬ InvalidQIgnoredFull := by
   revert this
   decide
 
+/-- Header text level: the element `value;q=<text>` (value made of token characters and `/`,
+q text a non-empty token) parses to nothing when the q text fails `_q_value_re` / the range
+check, and to exactly `(value, q)` otherwise.
+This is the `_partial` form of "items with malformed or out-of-range q are ignored" on header text;
+excluded are exactly the q texts that are not tokens (empty, or starting with a blank — F17b). -/
+theorem invalid_q_ignored_header_partial (v qs : Str) (hv : IsValueText v) (hq : IsToken qs) :
+    (parseAcceptRaw (qElement v qs)).toOption =
+      some (match parseQ qs with
+        | none => []
+        | some q => [(v, q)]) := by
+  have hne : (qElement v qs).isEmpty = false := by simp [qElement]
+  have hs : Py.strip qs = qs := strip_noSpace' qs (fun c hc => (isTokChar_props c (hq.2 c hc)).1)
+  simp only [parseAcceptRaw, hne, Bool.false_eq_true, ↓reduceIte, lexHeader,
+    parseListHeader_qElement v qs hv hq, List.mapM_cons, List.mapM_nil,
+    parseOptionsHeader_qElement v qs hv hq]
+  have : acceptItems [(v, [(qKey, qs)])] = (match parseQ qs with
+      | none => []
+      | some q => [(v, q)]) := by
+    simp only [acceptItems, List.filterMap_cons, List.filterMap_nil, acceptItem, dictGet,
+      List.find?_cons_of_pos, BEq.rfl, Option.map_some, hs]
+    cases parseQ qs <;> simp
+  rw [← this]
+  rfl
+
+example : IsValueText "text/html".toList ∧ IsToken "1.5".toList ∧ parseQ "1.5".toList = none ∧
+    qElement "text/html".toList "1.5".toList = "text/html;q=1.5".toList := by
+  refine ⟨⟨by decide, ?_⟩, ⟨by decide, ?_⟩, by decide, by decide⟩
+  · intro c hc
+    have : c ∈ "text/html".toList := hc
+    by_cases h : c = '/'
+    · exact Or.inr h
+    · left
+      have hm : c = 't' ∨ c = 'e' ∨ c = 'x' ∨ c = 'h' ∨ c = 'm' ∨ c = 'l' := by
+        have : c = 't' ∨ c = 'e' ∨ c = 'x' ∨ c = 't' ∨ c = '/' ∨ c = 'h' ∨ c = 't' ∨ c = 'm' ∨ c = 'l' := by
+          simpa using this
+        rcases this with h1 | h1 | h1 | h1 | h1 | h1 | h1 | h1 | h1 <;> simp_all
+      rcases hm with rfl | rfl | rfl | rfl | rfl | rfl <;> decide
+  · intro c hc
+    have : c = '1' ∨ c = '.' ∨ c = '5' := by simpa using hc
+    rcases this with rfl | rfl | rfl <;> decide
+
 /-- the same happens for bad whitespace after `=` -/
 theorem invalid_q_space_kept :
     (parseAcceptRaw "text/html;q= 0.5".toList).toOption = some [("text/html".toList, Q.one)] := by
@@ -474,7 +520,7 @@ theorem mime_match_text_subtype_wildcard (t t' s' : Str) (ps' : List Str)
     have : c = '*' := by simpa [star] using hc
     subst this
     exact ⟨by decide, by decide, by decide⟩
-  have lstar : IsLower star := by decide
+  have lstar : IsLower star := by unfold IsLower; decide
   have hi := mimeNorm_render t star [] ht hstar (by simp) lt lstar (by simp)
   have hv := mimeNorm_render t' s' ps' ht' hs' hps' lt' ls' lps'
   unfold mimeMatches
@@ -619,6 +665,11 @@ theorem lang_fallback_exact_quality (self : List (Str × Q)) (offers : List Str)
     r ∈ offers ∧ ∀ ci q, bestSingle langNeg self r = some (ci, q) → Q.le q Q.zero = true := by
   have hm := (lang_result_sound self offers r h).1
   exact ⟨hm, (bestMatch_none_iff langNeg specLe_totalPre qle_totalPre self offers).mp hfb r hm⟩
+
+example : langBestMatch (mk langNeg [("en-US".toList, Q.zero), ("*".toList, Q.one)]) ["en_us".toList]
+      = some "en_us".toList ∧
+    bestMatch langNeg (mk langNeg [("en-US".toList, Q.zero), ("*".toList, Q.one)]) ["en_us".toList]
+      = none := by decide
 
 /-- The last stage never fails to map the matched primary tag back to an offer (the `next(...)`
 in the code cannot raise `StopIteration`): the result is `None` exactly when all three stages find
